@@ -246,6 +246,13 @@ def vf_havoc(eng, st, fr, ins, a):
     return hv[k]
 
 
+@model("vf_havoc_is")
+def vf_havoc_is(eng, st, fr, ins, a):
+    if eng.assignment is None:
+        st.user.setdefault("havoc_preset", {})[a[0]] = a[1]
+    return None
+
+
 @model("vf_watch")
 def vf_watch(eng, st, fr, ins, a):
     if eng.lockmon is not None:
